@@ -1,5 +1,6 @@
 import PolytuneModel.Prim.Chunk
 import PolytuneModel.Proto.Circuit
+import PolytuneModel.Gen.Arith
 /-! The engine's communication skeleton as a function of PUBLIC parameters only:
     for an ordered pair (from, to), the sequence of (phase label, byte length) of the messages `from` sends to `to`
     during one `mpc` call with the untrusted preprocessor. Import-free, executable. (C05, C09, C12) -/
@@ -11,18 +12,16 @@ structure Pub where
   pEval : Nat
   pOut  : List Nat
 
-def RHO : Nat := 40
-def SSP : Nat := 40
-
-/-- `faand::bucket_size` (hand copy; the translator's `Gen.bucketSize` replaces it). -/
-def bucketSize (l : Nat) : Nat := if l ≥ 280000 then 3 else if l ≥ 3100 then 4 else 5
+/-! Constants and size functions are NOT hand copies: they are the translator's output (`Gen/Arith.lean`, regenerated from
+    `faand.rs`, `protocol.rs`, `kos.rs` on every run), so the pattern compared with the wire follows the source. -/
+def RHO : Nat := Gen.RHO
+def SSP : Nat := Gen.SSP
+def bucketSize (l : Nat) : Nat := Gen.bucketSize l
 
 def nextMultipleOf8 (m : Nat) : Nat := (m + 7) / 8 * 8
 
-def randomSharesBatchSize (c : Circuit) : Nat :=
-  let t := c.numInputs + c.andOps
-  min t (max ((t + 8) / 9) 1000)
-def andShareBatchSize (c : Circuit) : Nat := min c.andOps (max ((c.andOps + 8) / 9) 1000)
+def randomSharesBatchSize (c : Circuit) : Nat := Gen.randomSharesBatchSize c.numInputs c.andOps
+def andShareBatchSize (c : Circuit) : Nat := Gen.andShareBatchSize c.andOps
 
 abbrev Msg := String × Nat
 
